@@ -508,6 +508,7 @@ func c02Main(r *run.Runner) {
 		"T | top 2 by a | project a = b, c = a | top 1 by a", "T | where a > 0 | project b = a, a = b | where a > 1 | project b",
 		"T | summarize n = count() by a | project a = n, n = a | sort by n", "T | extend sort = a, by = b | sort by sort asc, `by` | take 2",
 		"T | project `where` = a, `take` = b | where `where` > 1 | take 1", "T | extend x = a | extend x2 = x + 1 | extend x3 = x2 + x | project x3, x | sort by x3",
+		"T | sort by a | extend a = 0 - a | take 2 | project b", "T | sort by b asc, a | extend b = a | take 2 | count",
 		// a name that is defined, consumed without being exported, and defined again; a key fixed by an equality and then renamed
 		"T | extend d = a - b | project a, b, r = d * 2 | extend d = r + b | where d > 1 | sort by d asc | take 3",
 		"T | extend d = a + 1 | project r = d | extend d = r * 2 | project d, r | sort by d", "T | extend d = a | summarize m = max(d) by b | extend d = m + b | where d > 2 | project d",
